@@ -64,7 +64,16 @@ class VG(object):
         return self.d(st.sampled_from(list(seq)))
 
     # ------------------------------------------------------------------
-    def length(self, size, unit_cost=1):
+    def length(self, size, unit_cost=1, allow_big=True):
+        cfg = self.cfg
+        n = self._length(size, allow_big and not getattr(self, '_big_used', False))
+        if n >= 16383:
+            # at most one 16K+ length per top-level value: nested big lengths multiply into values that take
+            # minutes per case without exercising anything new
+            self._big_used = True
+        return n
+
+    def _length(self, size, big_ok):
         cfg = self.cfg
         lo = 0
         hi = None
@@ -75,14 +84,15 @@ class VG(object):
             ext = size.ext
         cap = cfg.max_len
         cands = [x for x in LEN_EDGES if x <= cap]
-        if cfg.big:
+        big = cfg.big and big_ok and self.chance(12)
+        if big:
             cands = cands + BIG_LENS
         if ext and cfg.out_of_root and self.chance(35):
             # any length is admitted by an extensible SIZE
             n = self.pick(cands + [lo, lo + 1, (hi or lo) + 1])
             return max(0, n)
         ok = [x for x in cands + [lo, lo + 1] + ([hi, hi - 1] if hi is not None else [])
-              if x >= lo and (hi is None or x <= hi) and (x <= max(cap, lo) or (cfg.big and x in BIG_LENS))]
+              if x >= lo and (hi is None or x <= hi) and (x <= max(cap, lo) or (big and x in BIG_LENS))]
         if not ok:
             return lo
         if self.chance(60):
@@ -241,6 +251,8 @@ class VG(object):
 
     # ------------------------------------------------------------------
     def value(self, ty, modname, depth=0):
+        if depth == 0:
+            self._big_used = False
         r = asn.resolve(self.spec, ty, modname)
         b = r.base
         k = b.kind
@@ -282,7 +294,8 @@ class VG(object):
         if k in ('SEQUENCE OF', 'SET OF'):
             if depth >= cfg.max_depth and (r.size is None or not r.size.lo):
                 return []
-            n = self.length(r.size)
+            simple = asn.base_kind(self.spec, b.elem, r.mod) in ('BOOLEAN', 'INTEGER', 'NULL', 'ENUMERATED')
+            n = self.length(r.size, allow_big=simple)
             if n > 8:
                 # keep nested values small: repeat a few drawn elements
                 base = [self.value(b.elem, r.mod, depth + 1) for _ in range(3)]
